@@ -2116,8 +2116,10 @@ find_include(Filename &filename, bool angle_quotes, CPPFile::Source &source) con
     }
   }
 
-  // Now search the angle-include-path
-  if (angle_quotes && filename.resolve_filename(_angle_include_path)) {
+  // Now search the angle-include-path.  (An empty DSearchPath would search
+  // the current directory, which is not a system include directory.)
+  if (angle_quotes && _angle_include_path.get_num_directories() > 0 &&
+      filename.resolve_filename(_angle_include_path)) {
     source = CPPFile::S_system;
     return true;
   }
